@@ -15,9 +15,36 @@ _seq = [0]
 _attempts = {}
 
 
+def setup_layers_snapshot():
+    """indices of the layers in the runner's own `setup_layers` dict (insertion order), found on the
+    Python stack (`run_layer` / `setup_layer` / `tear_down_unneeded` have it as a local); None when
+    no such frame exists"""
+    f = sys._getframe(2)
+    while f is not None:
+        if f.f_code.co_name in ("setup_layer", "tear_down_unneeded", "run_layer"):
+            sl = f.f_locals.get("setup_layers")
+            if sl is not None:
+                out = []
+                for layer in list(sl):
+                    idx = -1
+                    for i, cand in enumerate(LAYERS):
+                        if cand is layer:
+                            idx = i
+                            break
+                    out.append(idx)
+                return out
+        f = f.f_back
+    return None
+
+
 def trace(ev):
     if not TRACE:
         return
+    if ev.get("ev") in ("lsu", "ltd", "ph"):
+        try:
+            ev["sl"] = setup_layers_snapshot()
+        except Exception:  # pragma: no cover
+            ev["sl"] = "error"
     ev["pid"] = os.getpid()
     ev["seq"] = _seq[0]
     _seq[0] += 1
